@@ -411,6 +411,13 @@ func (d *Driver) runWorker(phase int, pl Plan, slice, start, restart int) (*Work
 		}
 		return res, false, -1
 	}
+	if ee, ok := err.(*exec.ExitError); ok && ee.ExitCode() == 77 {
+		// the worker reported a round that never completed (verdict already in its result file) and gave up
+		if res == nil {
+			res = &WorkerResult{}
+		}
+		return res, true, lastIdx + 1
+	}
 	detail := fmt.Sprintf("worker died (%v) while running case %s\n%s", err, lastCase, tail)
 	d.crashes = append(d.crashes, Violation{Case: caseID, Idx: lastIdx, Detail: detail, KF: crashSignature(tail),
 		Replay: mustJSON(map[string]any{"phase": phase, "idx": lastIdx, "kind": "crash"})})
